@@ -370,9 +370,46 @@ def proxy_back_pass(ctx):
             return
 
 
+def redeclare_pass(ctx):
+    """the declaration changes after the feature has been used: `unique` is flipped once an object holds values in it; an
+    object created afterwards gets the collection the feature declares *now* — duplicates kept by a non-unique feature,
+    ignored by a unique one"""
+    from pyecore import ecore as E
+    for k in range(12 if ctx.quick() else 120):
+        rng = common.sub_rng(ctx.seed, 'C04', 'redeclare', k)
+        A, B = E.EClass('A'), E.EClass('B')
+        unique0 = k % 2 == 0
+        ref = k % 4 >= 2
+        f = (E.EReference('xs', B, upper=-1, unique=unique0) if ref else E.EAttribute('xs', E.EInt, upper=-1, unique=unique0))
+        A.eStructuralFeatures.append(f)
+        vals = [B() for _ in range(3)] if ref else [10 ** 6 + i for i in range(3)]
+        old = A()
+        old.xs.append(vals[0])
+        f.unique = not unique0
+        new = A()
+        seq = [rng.choice(vals) for _ in range(rng.randint(3, 6))]
+        seq.append(seq[0])
+        for v in seq:
+            new.xs.append(v)
+        want = []
+        for v in seq:
+            if not (f.unique and any(w is v or (not ref and w == v) for w in want)):
+                want.append(v)
+        got = list(new.xs)
+        ctx.evaluations += 1
+        ctx.nontriv(('redeclare', k))
+        if len(got) != len(want) or any((g is not w) if ref else (g != w) for g, w in zip(got, want)):
+            ctx.violate({'clause': 'no-dup' if f.unique else 'list-spec', 'op': 'add', 'unique': bool(f.unique), 'redeclared': True},
+                        f'a {"reference" if ref else "attribute"} declared unique={unique0}, used, then declared unique={f.unique}: an object created '
+                        f'afterwards, given {len(seq)} values with repeats, holds {len(got)} where the declaration gives {len(want)}',
+                        {'redeclare': k})
+            return
+
+
 def run(ctx):
     common.use_repo()
     proxy_back_pass(ctx)
+    redeclare_pass(ctx)
     rng = common.sub_rng(ctx.seed, 'C04')
     cases = build_cases(ctx, rng)
     ctx.rule = ('exhaustive: every duplicate-free state (unique) / every list (non-unique) over a universe of '
